@@ -9,6 +9,7 @@ import (
 	"runtime"
 		"sort"
 	"strings"
+	"time"
 
 	"github.com/gocql/gocql"
 	"verif/engine/report"
@@ -19,7 +20,7 @@ var valueVersions = []byte{2, 4}
 var valuesSuite = &suite{
 	name:     "values",
 	deciding: true,
-	memKiB:   4 << 20, // 4 GiB of address space
+	memKiB:   1 << 20, // 1 GiB of address space
 	blocks: func(thorough bool) int {
 		return len(typeCatalogue(thorough)) * len(valueVersions)
 	},
@@ -32,7 +33,7 @@ var valuesSuite = &suite{
 		}
 		r.Extra("values.type_trees", map[string]int{"scalar": d[0], "depth1": d[1], "depth2": d[2]})
 		ruleParts = append(ruleParts, fmt.Sprintf(
-			"(a) values: for each of %d CQL type trees (21 scalars; list/set/map/tuple(1-2)/udt(1-2 fields) over {%s}; depth-2 trees with an inner composite in every position) x protocol {2,4} x every documented Go target of that type (+ **T, *interface{}): nil, each valid encoding (all present / last element null), every truncation of each, every length/count field of each replaced by {-2^31,-2,-1,0,1,n-1,n+1,65535,2^31-1} (masked to the field width), all byte strings of length<=3 over {00,01,7f,80,ff}; each run twice (input at the end of an exact allocation; input followed by 32 spare bytes of capacity) — a case is a distinct (type,version,target,input bytes); non-trivial = Unmarshal got past the 'cannot unmarshal X into T' type check",
+			"(a) values: for each of %d CQL type trees (21 scalars; list/set/map/tuple(1-2)/udt(1-2 fields) over {%s}; depth-2 trees with an inner composite in every position) x protocol {2,4} x every documented Go target of that type (+ **T, *interface{}): nil, each valid encoding (all present / last element null), every truncation of each, every length/count field of each replaced by {-2^31,-2,-1,0,1,n-1,n+1,65535,2^31-1} (masked to the field width), all byte strings of length<=3 over {00,01,7f,80,ff} (quick tier: depth-2 trees only with the all-present encoding and without the short strings); each run twice (input at the end of an exact allocation; input followed by 32 spare bytes of capacity) — a case is a distinct (type,version,target,input bytes); non-trivial = Unmarshal got past the 'cannot unmarshal X into T' type check",
 			len(cat), strings.Join(elemAlphabet, ",")))
 	},
 }
@@ -116,6 +117,13 @@ func valueInputs(n *tnode, proto byte, thorough bool) []vinput {
 	}
 	add(vinput{isNil: true, class: "nil", desc: "null"})
 	variants := 2
+	// quick tier: depth-2 trees get the all-present encoding only and no short strings
+	// (a string of <= 3 bytes cannot reach below the outermost node, which the depth-1
+	// trees of the same outer kind already cover)
+	reduced := !thorough && n.depth() >= 2
+	if reduced {
+		variants = 1
+	}
 	for v := 0; v < variants; v++ {
 		var e enc
 		n.encode(&e, proto, v)
@@ -135,8 +143,10 @@ func valueInputs(n *tnode, proto byte, thorough bool) []vinput {
 			}
 		}
 	}
-	for _, s := range shortStrings() {
-		add(vinput{data: s, class: "short", desc: fmt.Sprintf("short %x", s)})
+	if !reduced {
+		for _, s := range shortStrings() {
+			add(vinput{data: s, class: "short", desc: fmt.Sprintf("short %x", s)})
+		}
 	}
 	return ins
 }
@@ -243,13 +253,14 @@ func padded(in *vinput) (data, whole []byte) {
 func allocBound(n int) uint64 { return 1<<20 + 64*uint64(n) }
 
 func runValuesBlock(c *child, b int) {
+	tb0 := time.Now()
+	defer func() { c.count("t_block_us", time.Since(tb0).Microseconds()) }()
 	cat := catalogue(c.thorough)
 	n := cat[b/len(valueVersions)]
 	proto := valueVersions[b%len(valueVersions)]
 	info := n.info(proto)
 	ins := valueInputs(n, proto, c.thorough)
 	tstr := n.String()
-	allocSites := map[string]string{}
 	for _, tg := range n.targets(true) {
 		for i := range ins {
 			if !c.begin() {
@@ -265,6 +276,11 @@ func runValuesBlock(c *child, b int) {
 			}
 			if c.describe {
 				continue
+			}
+			if strings.HasSuffix(in.class, "2^31-1") && c.sincePart > 32 {
+				// durability only: a huge count may kill this process (out of memory);
+				// hand over what has been found so far
+				c.flushPart()
 			}
 			// run A: exact capacity, measured
 			var a runOut
@@ -338,18 +354,23 @@ func runValuesBlock(c *child, b int) {
 				})
 			}
 			if overAlloc {
-				site, ok := allocSites[tg.name]
-				if !ok {
-					site = allocSite(func() { callUnmarshal(info, exact(in), tg.mk()) })
-					allocSites[tg.name] = site
-				}
-				c.viol(fmt.Sprintf("alloc:%s:exceeds-1MiB+64n", site), func() (string, map[string]interface{}) {
+				// the allocating site is resolved by the parent (one profiled re-run per
+				// provisional key), see parent.allocSiteFor
+				c.viol(fmt.Sprintf("alloc?:%s->%s|%s", n.name, tg.generic(), classNoValue(in.class)), func() (string, map[string]interface{}) {
 					return fmt.Sprintf("gocql.Unmarshal(%s proto %d, %s = [%x] (%d bytes), %s) allocated %d bytes (bound %d); result err=%q",
 						tstr, proto, in.desc, in.data, len(in.data), tg.name, alloc, allocBound(len(in.data)), a.err), replay()
 				})
 			}
 		}
 	}
+}
+
+// classNoValue drops the substituted value from a mutation class ("sub:role:value").
+func classNoValue(cls string) string {
+	if strings.HasPrefix(cls, "sub:") && strings.Count(cls, ":") >= 2 {
+		return cls[:strings.LastIndex(cls, ":")]
+	}
+	return cls
 }
 
 func trimStack(s string) string {
